@@ -1,178 +1,239 @@
-"""Role-based anchors: private functions, structs and fields that the rules refer to by their name on the
-pinned tree are located by *what they are* (signature, field types, data flow). If one of them has been
-renamed, the fact base is rewritten to the canonical name before the rules run, so a pure rename does not
-raise an alarm. Public API names (Context::run/connect/authorize/new/set_up, ContextHandle::*) are not
-covered: renaming those is an API change."""
+"""Role-based anchors: private functions, structs and fields that the rules refer to by the name they have on
+the pinned tree are located by *what they are* (shape of a struct, types of its fields, signature of a function,
+data flow), anywhere in the crate. If one of them has been renamed or moved to another module / turned from an
+associated function into a method of the struct it works on, the fact base is rewritten to the canonical path
+before the rules run, so that a rename or a move does not raise an alarm.
+
+Public API names (Context, Context::run/connect/authorize/new/set_up, ContextHandle and its operations, the codec
+packet types) are taken as they are: renaming those is an API change. `impl Context` blocks may live in any
+module."""
 import json
 import re
 
 CTX = "client::context::"
+SESSION = "client::context::Session"
+CONNECTION = "client::context::Connection"
+MSG = "client::message::"
 
 
-def _fns(d, pred):
-    return [f for f in d["fns"] if pred(f)]
+def _is_async(by_parent, f):
+    return any(g["path"] == f["path"] + "::{closure#0}" and g["kind"] == "coroutine" for g in by_parent.get(f["path"], []))
 
 
-def _ctx_impl_fn(f):
-    return f["kind"] == "fn" and (f.get("impl_self") or "").startswith("client::context::Context<") and not f.get("impl_trait")
+def _layer(path):
+    return path.lstrip("<").split("::")[0]
 
 
-def _is_async(d, f):
-    return any(g["path"] == f["path"] + "::{closure#0}" and g["kind"] == "coroutine" for g in d["_by_parent"].get(f["path"], []))
+def _field_role_session(ty, adts):
+    """Which Session collection a field of this type is."""
+    if not ty.startswith("std::collections::VecDeque<"):
+        return None
+    inner = ty[len("std::collections::VecDeque<"):-1]
+    texts = [inner]
+    # queue of a named crate struct: look at that struct's field types
+    a = adts.get(inner)
+    if a is not None and a["kind"] == "struct":
+        texts += [x["ty"] for x in a["variants"][0]["fields"]]
+    blob = " ".join(texts)
+    if "oneshot::Sender<" in blob:
+        return "awaiting_ack"
+    if "UnboundedSender<codec::packet::RxPacket>" in blob:
+        return "subscriptions"
+    if "bytes::Bytes" in blob:
+        return "retrasmit_queue"
+    if inner == "u16":
+        return "unreleased"
+    return None
 
 
-def detect(d):
-    """Returns {"structs": {canonical: actual}, "fns": {canonical: actual_name}, "utils": {...}, "fields": {(struct, canonical): actual}}"""
-    out = {"structs": {}, "fns": {}, "utils": {}, "fields": {}}
-    d["_by_parent"] = {}
+def detect_structs(d):
+    """{"adts": {actual_path: canonical_path}, "fields": {(canonical_adt, canonical_field): actual_field}}"""
+    adts = {a["path"]: a for a in d["adts"]}
+    out = {"adts": {}, "fields": {}}
+    for a in d["adts"]:
+        if a["kind"] != "struct" or _layer(a["path"]) != "client":
+            continue
+        fs = a["variants"][0]["fields"]
+        ftys = [x["ty"] for x in fs]
+        if sum(1 for t in ftys if t.startswith("std::collections::VecDeque<")) >= 3:
+            out["adts"][a["path"]] = SESSION
+            for x in fs:
+                r = _field_role_session(x["ty"], adts)
+                if r:
+                    out["fields"][(SESSION, r)] = x["name"]
+        elif any(t == "std::option::Option<std::time::SystemTime>" for t in ftys) and not any("PacketStream" in t for t in ftys):
+            out["adts"][a["path"]] = CONNECTION
+            for x in fs:
+                t = x["ty"]
+                if t == "std::option::Option<std::time::SystemTime>":
+                    out["fields"][(CONNECTION, "disconnection_timestamp")] = x["name"]
+                elif t == "u32":
+                    out["fields"][(CONNECTION, "session_expiry_interval")] = x["name"]
+                elif t == "std::option::Option<u32>":
+                    out["fields"][(CONNECTION, "remote_max_packet_size")] = x["name"]
+        else:
+            # payload structs of the messages handed to the context
+            has_buf = any(t == "bytes::BytesMut" for t in ftys)
+            one = [t for t in ftys if "oneshot::Sender<" in t]
+            stream = [t for t in ftys if "UnboundedSender<codec::packet::RxPacket>" in t]
+            if has_buf and len(one) == 1:
+                if stream and len(fs) == 5:
+                    canon = MSG + "Subscribe"
+                elif not stream and len(fs) == 3:
+                    canon = MSG + "AwaitAck"
+                elif not stream and len(fs) == 2:
+                    canon = MSG + "FireAndForget"
+                else:
+                    continue
+                out["adts"][a["path"]] = canon
+                others = []
+                for x in fs:
+                    t = x["ty"]
+                    if t == "bytes::BytesMut":
+                        out["fields"][(canon, "packet")] = x["name"]
+                    elif "oneshot::Sender<" in t:
+                        out["fields"][(canon, "response_channel")] = x["name"]
+                    elif "UnboundedSender<" in t:
+                        out["fields"][(canon, "stream")] = x["name"]
+                    else:
+                        others.append(x["name"])
+                if others:
+                    out["fields"][(canon, "action_id")] = others[0]
+                if len(others) > 1:
+                    out["fields"][(canon, "subscription_identifier")] = others[1]
+    return out
+
+
+def detect_fns(d):
+    """{actual_full_path: canonical_full_path} for the private helper functions the rules name (struct paths in the
+    fact base are canonical already)."""
+    by_parent = {}
     for f in d["fns"]:
         if f.get("parent"):
-            d["_by_parent"].setdefault(f["parent"], []).append(f)
-    # ---- structs of client::context
-    session = connection = None
-    for a in d["adts"]:
-        if not a["path"].startswith(CTX) or a["kind"] != "struct":
+            by_parent.setdefault(f["parent"], []).append(f)
+    # the Context type and the generic parameter list its impls are printed with
+    prefix = None
+    for f in d["fns"]:
+        if f["kind"] == "fn" and f["name"] == "run" and (f.get("impl_self") or "").startswith("client::context::Context<"):
+            params = f["impl_self"][len("client::context::Context"):]
+            prefix = "client::context::Context::" + params + "::"
+    out = {}
+    if prefix is None:
+        return out, None
+    S, C = "&mut " + SESSION, CONNECTION
+
+    def put(f, name, pre=prefix):
+        out[f["path"]] = pre + name
+    preds = []
+    for f in d["fns"]:
+        if f["kind"] != "fn" or f.get("impl_trait") or "::test" in f["path"]:
             continue
-        ftys = [x["ty"] for x in a["variants"][0]["fields"]]
-        if sum(1 for t in ftys if t.startswith("std::collections::VecDeque<")) >= 3:
-            session = a
-        if any(t == "std::option::Option<std::time::SystemTime>" for t in ftys):
-            connection = a
-    if session is not None:
-        out["structs"]["Session"] = session["path"].split("::")[-1]
-        for x in session["variants"][0]["fields"]:
-            t = x["ty"]
-            if "oneshot::Sender<" in t:
-                out["fields"][("Session", "awaiting_ack")] = x["name"]
-            elif "UnboundedSender<codec::packet::RxPacket>" in t:
-                out["fields"][("Session", "subscriptions")] = x["name"]
-            elif t == "std::collections::VecDeque<(usize, bytes::Bytes)>":
-                out["fields"][("Session", "retrasmit_queue")] = x["name"]
-    if connection is not None:
-        out["structs"]["Connection"] = connection["path"].split("::")[-1]
-        u16s = []
-        for x in connection["variants"][0]["fields"]:
-            t = x["ty"]
-            if t == "std::option::Option<std::time::SystemTime>":
-                out["fields"][("Connection", "disconnection_timestamp")] = x["name"]
-            elif t == "u32":
-                out["fields"][("Connection", "session_expiry_interval")] = x["name"]
-            elif t == "std::option::Option<u32>":
-                out["fields"][("Connection", "remote_max_packet_size")] = x["name"]
-            elif t == "u16":
-                u16s.append(x["name"])
-    s_name = out["structs"].get("Session", "Session")
-    c_name = out["structs"].get("Connection", "Connection")
-    S, C = CTX + s_name, CTX + c_name
-    # ---- functions of the Context impl, by signature
-    for f in _fns(d, _ctx_impl_fn):
-        sig = f.get("sig_in", [])
+        sig = f.get("sig_in") or []
         ret = f.get("sig_out") or ""
-        nm = f["name"]
-        asy = _is_async(d, f)
-        if asy and any(t == "codec::packet::RxPacket" for t in sig):
-            out["fns"]["handle_packet"] = nm
-        elif asy and any(t == "client::message::ContextMessage" for t in sig):
-            out["fns"]["handle_message"] = nm
-        elif asy and len(sig) == 2 and sig[1] == "core::base_types::NonZero<u16>":
-            out["fns"]["ack"] = nm
-        elif not asy and sig == ["&" + C, "&[u8]"] and ret.startswith("std::result::Result<(), "):
-            out["fns"]["validate_packet_size"] = nm
-        elif not asy and len(sig) == 2 and sig[0] == "&mut " + C and sig[1] == "&codec::connack::ConnackRx":
-            out["fns"]["handle_connack"] = nm
-        elif not asy and sig == ["&mut " + S] and ret == "()":
-            out["fns"]["reset_session"] = nm
-    preds = [f for f in _fns(d, _ctx_impl_fn) if f.get("sig_in") == ["&" + C] and f.get("sig_out") == "bool"]
+        lay = _layer(f["path"])
+        asy = _is_async(by_parent, f)
+        if (f.get("impl_self") or "").startswith("client::context::Context<") and f["name"] in ("run", "connect", "authorize", "new", "set_up"):
+            put(f, f["name"])
+            continue
+        if lay == "client":
+            if asy and any(t == "codec::packet::RxPacket" for t in sig) and any(t == S for t in sig):
+                put(f, "handle_packet")
+            elif asy and any(t == "client::message::ContextMessage" for t in sig):
+                put(f, "handle_message")
+            elif asy and len(sig) == 2 and sig[1] == "core::base_types::NonZero<u16>" and sig[0].startswith("&mut io::packet_stream::TxPacketStream"):
+                put(f, "ack")
+            elif not asy and any(t.replace(" ", "") in ("&[u8]", "&'a[u8]") for t in sig) and ret.startswith("std::result::Result<(), ") and "MqttError" in ret and len(sig) == 2:
+                put(f, "validate_packet_size")
+            elif not asy and any(t == "&codec::connack::ConnackRx" for t in sig) and ret == "()" and any(C in t for t in sig):
+                put(f, "handle_connack")
+            elif not asy and sig == [S] and ret == "()":
+                put(f, "reset_session")
+            elif not asy and sig == ["&" + C] and ret == "bool":
+                preds.append(f)
+        if len(sig) == 1 and sig[0].startswith("&codec::packet::RxPacket") and not asy and ret and ("usize" == ret or ret.startswith("client::") or ret.startswith("codec::")) and "Result" not in ret:
+            if lay in ("client", "codec") and not f["vis"] == "pub":
+                out[f["path"]] = "client::utils::rx_action_id"
+        elif len(sig) == 1 and sig[0].startswith("&codec::packet::TxPacket") and not asy and ret and ("usize" == ret or ret.startswith("client::") or ret.startswith("codec::")) and "Result" not in ret:
+            if lay in ("client", "codec") and f["name"] not in ("packet_len",) and not f["vis"] == "pub":
+                out[f["path"]] = "client::utils::tx_action_id"
+        elif lay == "client" and len(sig) == 2 and sig[0].startswith("&std::collections::VecDeque<") and ret == "std::option::Option<usize>":
+            out[f["path"]] = "client::utils::linear_search_by_key"
     if len(preds) == 2:
         preds.sort(key=lambda f: len(f["blocks"]))
-        out["fns"]["is_reconnect"] = preds[0]["name"]
-        out["fns"]["session_expired"] = preds[1]["name"]
-    # ---- client::utils
-    for f in d["fns"]:
-        if f["kind"] != "fn" or not f["path"].startswith("client::utils::"):
+        put(preds[0], "is_reconnect")
+        put(preds[1], "session_expired")
+    # a role claimed by two functions is no role: leave both alone (the rules then see what is there)
+    seen = {}
+    for a, c in out.items():
+        seen.setdefault(c, []).append(a)
+    for c, acts in seen.items():
+        if len(acts) > 1:
+            for a in acts:
+                if a != c:
+                    del out[a]
+    return out, prefix
+
+
+def _quota_fields(d, fns):
+    """(quota field, receive-maximum field) of Connection: the function that takes a &ConnackRx assigns one u16 field of
+    Connection from the other."""
+    conn = [a for a in d["adts"] if a["path"] == CONNECTION]
+    hc_paths = [a for a, c in fns.items() if c.endswith("::handle_connack")]
+    if not conn or not hc_paths:
+        return None
+    u16s = [x["name"] for x in conn[0]["variants"][0]["fields"] if x["ty"] == "u16"]
+    if len(u16s) != 2:
+        return None
+    hc = [f for f in d["fns"] if f["path"] == hc_paths[0]]
+    if not hc:
+        return None
+    blocks = hc[0]["blocks"]
+    for b in blocks:
+        for st in b["stmts"]:
+            if st["k"] != "assign":
+                continue
+            lp = [p for p in st["lhs"]["p"] if isinstance(p, dict) and "f" in p]
+            if not lp or lp[-1].get("adt") != CONNECTION or lp[-1].get("n") not in u16s:
+                continue
+            rv = st["rv"]
+            if rv["k"] == "use" and rv["op"].get("k") in ("copy", "move") and not rv["op"]["pl"]["p"]:
+                tl = rv["op"]["pl"]["l"]
+                for b2 in blocks:
+                    for st2 in b2["stmts"]:
+                        if st2["k"] == "assign" and st2["lhs"]["l"] == tl and not st2["lhs"]["p"] and st2["rv"]["k"] == "use" \
+                                and st2["rv"]["op"].get("k") in ("copy", "move"):
+                            rv = st2["rv"]
+            if rv["k"] == "use" and rv["op"].get("k") in ("copy", "move"):
+                rp = [p for p in rv["op"]["pl"]["p"] if isinstance(p, dict) and "f" in p]
+                if rp and rp[-1].get("adt") == CONNECTION and rp[-1].get("n") in u16s and rp[-1]["n"] != lp[-1]["n"]:
+                    return lp[-1]["n"], rp[-1]["n"]
+    return None
+
+
+def _sub_path(text, actual, canon):
+    if actual == canon:
+        return text
+    return re.sub(r"(?<![\w:])" + re.escape(actual) + r"(?![\w])", canon.replace("\\", "\\\\"), text)
+
+
+def canonicalise_structs(text, st):
+    renamed = []
+    for actual, canon in sorted(st["adts"].items(), key=lambda kv: -len(kv[0])):
+        if actual != canon:
+            text = _sub_path(text, actual, canon)
+            renamed.append(["struct", canon, actual])
+    for (adt, k), actual in st["fields"].items():
+        if actual == k:
             continue
-        sig = f.get("sig_in", [])
-        ret = f.get("sig_out") or ""
-        if len(sig) == 1 and sig[0].startswith("&codec::packet::RxPacket") and ret == "usize":
-            out["utils"]["rx_action_id"] = f["name"]
-        elif len(sig) == 1 and sig[0].startswith("&codec::packet::TxPacket") and ret == "usize":
-            out["utils"]["tx_action_id"] = f["name"]
-        elif len(sig) == 2 and sig[0].startswith("&std::collections::VecDeque<(K, V)>") and ret == "std::option::Option<usize>":
-            out["utils"]["linear_search_by_key"] = f["name"]
-    # ---- the two u16 fields of Connection: handle_connack assigns quota := receive maximum
-    if connection is not None:
-        hc = [f for f in d["fns"] if f["name"] == out["fns"].get("handle_connack", "handle_connack") and _ctx_impl_fn(f)]
-        if hc and len(u16s) == 2:
-            quota = rmax = None
-            for b in hc[0]["blocks"]:
-                for st in b["stmts"]:
-                    if st["k"] != "assign":
-                        continue
-                    lp = [p for p in st["lhs"]["p"] if isinstance(p, dict) and "f" in p]
-                    if not lp or lp[-1].get("adt") != C or lp[-1].get("n") not in u16s:
-                        continue
-                    rv = st["rv"]
-                    if rv["k"] == "use" and rv["op"].get("k") in ("copy", "move") and not rv["op"]["pl"]["p"]:
-                        # through one temporary: `_t = (*c).M; (*c).F = move _t`
-                        tl = rv["op"]["pl"]["l"]
-                        for b2 in hc[0]["blocks"]:
-                            for st2 in b2["stmts"]:
-                                if st2["k"] == "assign" and st2["lhs"]["l"] == tl and not st2["lhs"]["p"] and st2["rv"]["k"] == "use" \
-                                        and st2["rv"]["op"].get("k") in ("copy", "move"):
-                                    rv = st2["rv"]
-                    if rv["k"] == "use" and rv["op"].get("k") in ("copy", "move"):
-                        rp = [p for p in rv["op"]["pl"]["p"] if isinstance(p, dict) and "f" in p]
-                        if rp and rp[-1].get("adt") == C and rp[-1].get("n") in u16s and rp[-1]["n"] != lp[-1]["n"]:
-                            quota, rmax = lp[-1]["n"], rp[-1]["n"]
-            if quota and rmax:
-                out["fields"][("Connection", "send_quota")] = quota
-                out["fields"][("Connection", "remote_receive_maximum")] = rmax
-    return out
+        renamed.append(["field", "%s.%s" % (adt, k), actual])
+        text = text.replace('"n":"%s","adt":"%s"' % (actual, adt), '"n":"%s","adt":"%s"' % (k, adt))
+        text = re.sub(r'("name":"\w+__)%s(")' % re.escape(actual), r"\g<1>" + k + r"\g<2>", text)
 
-
-def renames(roles):
-    """[(kind, canonical, actual)] for every role whose actual name differs from the canonical one."""
-    out = []
-    for k, v in roles["structs"].items():
-        if k != v:
-            out.append(("struct", k, v))
-    for k, v in roles["fns"].items():
-        if k != v:
-            out.append(("fn", k, v))
-    for k, v in roles["utils"].items():
-        if k != v:
-            out.append(("util", k, v))
-    for (s, k), v in roles["fields"].items():
-        if k != v:
-            out.append(("field", (s, k), v))
-    return out
-
-
-def canonicalise_text(text, roles):
-    """Rewrite the serialised fact base so that every detected role carries its canonical name."""
-    rn = renames(roles)
-    if not rn:
-        return text, []
-    for kind, canon, actual in rn:
-        if kind == "struct":
-            text = re.sub(r"client::context::%s(?=[\"\s,>\)\]\}:]|$)" % re.escape(actual), "client::context::" + canon, text)
-    for kind, canon, actual in rn:
-        if kind == "fn":
-            text = re.sub(r"(client::context::Context(?:::<[^>\"]*>)?::)%s(?=[\"\:])" % re.escape(actual), r"\g<1>" + canon, text)
-        elif kind == "util":
-            text = re.sub(r"(client::utils::)%s(?=[\"\:])" % re.escape(actual), r"\g<1>" + canon, text)
-    for kind, canon, actual in rn:
-        if kind == "field":
-            s, k = canon
-            adt = "client::context::" + s
-            text = text.replace('"n":"%s","adt":"%s"' % (actual, adt), '"n":"%s","adt":"%s"' % (k, adt))
-            text = re.sub(r'("name":"\w+__)%s(")' % re.escape(actual), r"\g<1>" + k + r"\g<2>", text)
-
-            def fix_fields(m):
-                inner = m.group(2).replace('"%s"' % actual, '"%s"' % k)
-                return m.group(1) + inner + m.group(3)
-            text = re.sub(r'("adt":"%s","variant":"[^"]*","vi":\d+,"args":\[[^\]]*\],"fields":\[)([^\]]*)(\])' % re.escape(adt), fix_fields, text)
-    return text, rn
+        def fix_fields(m, actual=actual, k=k):
+            inner = m.group(2).replace('"%s"' % actual, '"%s"' % k)
+            return m.group(1) + inner + m.group(3)
+        text = re.sub(r'("adt":"%s","variant":"[^"]*","vi":\d+,"args":\[[^\]]*\],"fields":\[)([^\]]*)(\])' % re.escape(adt), fix_fields, text)
+    return text, renamed
 
 
 def load_canonical(path):
@@ -183,25 +244,54 @@ def load_canonical(path):
     else:
         with open(path) as fh:
             text = fh.read()
+    # facts are serialised without spaces after separators in the driver; normalise for the textual rewrites
     d = json.loads(text)
-    roles = detect(d)
-    text2, rn = canonicalise_text(text, roles)
-    if rn:
+    st = detect_structs(d)
+    text2, renamed = canonicalise_structs(text, st)
+    if renamed:
         d = json.loads(text2)
+        for (adt, k), actual in st["fields"].items():
+            if actual != k:
+                for a in d["adts"]:
+                    if a["path"] == adt:
+                        for x in a["variants"][0]["fields"]:
+                            if x["name"] == actual:
+                                x["name"] = k
+        text2 = None
+    fns, prefix = detect_fns(d)
+    # the two u16 fields of Connection: handle_connack assigns quota := receive maximum
+    q = _quota_fields(d, fns)
+    if q:
+        pairs = {(CONNECTION, "send_quota"): q[0], (CONNECTION, "remote_receive_maximum"): q[1]}
+        st["fields"].update(pairs)
+        if any(k[1] != v for k, v in pairs.items()):
+            t2, rn2 = canonicalise_structs(json.dumps(d, separators=(",", ":")), {"adts": {}, "fields": pairs})
+            d = json.loads(t2)
+            renamed += rn2
+            for (adt, k), actual in pairs.items():
+                if actual != k:
+                    for a in d["adts"]:
+                        if a["path"] == adt:
+                            for x in a["variants"][0]["fields"]:
+                                if x["name"] == actual:
+                                    x["name"] = k
+    moved = {a: c for a, c in fns.items() if a != c}
+    if moved:
+        t3 = json.dumps(d, separators=(",", ":"))
+        for actual, canon in sorted(moved.items(), key=lambda kv: -len(kv[0])):
+            t3 = _sub_path(t3, actual, canon)
+            renamed.append(["fn", canon, actual])
+        d = json.loads(t3)
         for f in d["fns"]:
             last = f["path"].split("::")[-1]
             if f["kind"] == "fn" and re.fullmatch(r"\w+", last):
                 f["name"] = last
-        for kind, canon, actual in rn:
-            if kind == "field":
-                s_, k = canon
-                for a in d["adts"]:
-                    if a["path"] == "client::context::" + s_:
-                        for x in a["variants"][0]["fields"]:
-                            if x["name"] == actual:
-                                x["name"] = k
-    d.pop("_by_parent", None)
-    d["_roles"] = {"detected": {"structs": roles["structs"], "fns": roles["fns"], "utils": roles["utils"],
-                                "fields": {"%s.%s" % k: v for k, v in roles["fields"].items()}},
-                   "renamed": [[k, str(c), a] for k, c, a in rn]}
+    d["_roles"] = {"detected": {"structs": st["adts"], "fns": fns, "fields": {"%s.%s" % k: v for k, v in st["fields"].items()}},
+                   "renamed": renamed}
     return d
+
+
+# kept for callers that only want to know what was found
+def detect(d):
+    st = detect_structs(d)
+    return {"structs": st["adts"], "fields": st["fields"]}
